@@ -2,6 +2,7 @@ CONSTANTS
   NInst = 3
   Regs = {1, 2}
   OutSels = {0, 1}
+  OutSelsRen = {0, 1}
   ReAdmin = "keep"
   Design = "repaired"
   MaxOps = 40
